@@ -35,6 +35,7 @@ structure MCfg where
   async : Bool
   compl : Bool
   topic : String
+  linger : Nat := 0
   deriving Repr
 
 structure Obs where
@@ -280,5 +281,23 @@ def timerDetachGo : List TEv → List (String × TEv) → Bool
     | _ => timerDetachGo rest last
 
 def timerDetachOk (evs : List TEv) : Bool := timerDetachGo evs []
+
+/-- C08 "a batch is closed once BatchTimeout has elapsed since it was OPENED" on a timed trace (clock ticks `T.Tick µs`
+before every PW.NewBatch / PW.Add / B.TimerFire): whenever the clock is read, no batch that is still attached and whose
+timer has not fired is older than `linger` = BatchTimeout + scheduling slack.  State: the clock and the attached,
+not-yet-fired batches with their opening times.  (Same bound as the model's `tick` guard, evaluated on the trace alone.) -/
+def lingerGo (linger : Nat) : Nat → List (String × String × Nat) → List TEv → Bool
+  | _, _, [] => true
+  | now, att, e :: rest =>
+    match e with
+    | ["T.Tick", t] =>
+      let t' := t.toNat!
+      att.all (fun x => decide (t' ≤ x.2.2 + linger)) && lingerGo linger t' att rest
+    | ["PW.NewBatch", pw, b] => lingerGo linger now ((pw, b, now) :: att.filter (fun x => x.1 != pw)) rest
+    | ["B.TimerFire", _, b, _] => lingerGo linger now (att.filter (fun x => x.2.1 != b)) rest
+    | ["PW.Detach", _, b, _, _] => lingerGo linger now (att.filter (fun x => x.2.1 != b)) rest
+    | _ => lingerGo linger now att rest
+
+def lingerOk (linger : Nat) (evs : List TEv) : Bool := linger == 0 || lingerGo linger 0 [] evs
 
 end KV.WriterSpec
